@@ -18,9 +18,12 @@ PROP = Prop(
                      clause='every level listed in omen_keyspace.txt has as keyspace the number of distinct strings the real MarkovCracker emits at that level from the files written; '
                             'pcfg_omen_prob.txt holds (passwords at that level / N) / that number')],
     assumptions=[
-        '_rec_calc_keyspace and calc_omen_keyspace are not under a deductive contract yet (nested dictionaries created on demand); the count is decided by the bounded stand-in only',
+        '_rec_calc_keyspace (memoised recursion through dictionaries created on demand) is a trusted contract: it returns the uninterpreted RecCount(grammar, level, transitions, prefix) >= 0; '
+        'that this count -- and hence the listed keyspace -- is the number of distinct strings the real generator emits is decided by the bounded stand-in only',
         'dict.items() lists every present key exactly once with its value; int/int and float/int division as A-FP uninterpreted operations (no rounding reasoning needed: the clause is an identity of terms)',
     ],
-    explanation='Deductive (slice of save_omen_rules_to_disk, mechanically extracted): pcfg_omen_prob lists exactly the levels whose keyspace is non-zero, each with '
+    explanation='Deductive (all models, all max_level / max_keyspace): calc_omen_keyspace lists a level only with its complete sum -- over every initial n-gram whose level fits and every '
+                'length >= n-gram size whose length level fits the rest -- of the recursive count for the remaining level and length - ngram + 1 transitions (the cut-off never leaves a partial level); '
+                'find_omen_level books every training password under ln + ip + transition levels. Slice of save_omen_rules_to_disk, mechanically extracted: pcfg_omen_prob lists exactly the levels whose keyspace is non-zero, each with '
                 '(passwords at that level / N) / keyspace. Bounded: the listed keyspace equals the number of distinct strings the real generator emits, incl. the max_keyspace cut-off.',
 )
